@@ -303,14 +303,31 @@ def b_insort(E, st, node, args, kw):
     j = E.fresh("j", z3.IntSort())
     lt = ast.Lt()
     le = ast.LtE()
+    real_st = st
+    # comparisons below are built inside quantifiers: no per-comparison safety obligations
+    # there; instead one explicit obligation that every first component involved is not None
+    st = st.copy()
+    st.env = dict(st.env)
+    st.env["__spec__"] = True
+
+    def first_not_none(v):
+        if isinstance(v, tuple) and v and isinstance(v[0], OptV):
+            return z3_not(v[0].isnone)
+        return True
+
+    comparable = z3_and(first_not_none(x), z3.ForAll([j], z3.Implies(z3.And(j >= 0, j < seq.length), lift(first_not_none(seq.get(j))))) if first_not_none(seq.get(j)) is not True else True)
+    E.oblige(real_st, "callee-pre.bisect.insort.comparable", comparable, "safety")
     # caller obligation: list is sorted
     a, b = E.fresh("a", z3.IntSort()), E.fresh("b", z3.IntSort())
     sorted_goal = z3.ForAll([a, b], z3.Implies(z3.And(a >= 0, a < b, b < seq.length), lift(E.compare(st, le, seq.get(a), seq.get(b)))))
-    E.oblige(st, "callee-pre.bisect.insort.sorted", sorted_goal, "auxiliary")
+    E.oblige(real_st, "callee-pre.bisect.insort.sorted", sorted_goal, "auxiliary")
     p = E.fresh("p", z3.IntSort())
+    c1 = z3.ForAll([j], z3.Implies(z3.And(j >= 0, j < p), lift(E.compare(st, le, seq.get(j), x))))
+    c2 = z3.ForAll([j], z3.Implies(z3.And(j >= p, j < seq.length), lift(E.compare(st, lt, x, seq.get(j)))))
+    st = real_st
     st.pc.append(z3.And(p >= 0, p <= seq.length))
-    st.pc.append(z3.ForAll([j], z3.Implies(z3.And(j >= 0, j < p), lift(E.compare(st, le, seq.get(j), x)))))
-    st.pc.append(z3.ForAll([j], z3.Implies(z3.And(j >= p, j < seq.length), lift(E.compare(st, lt, x, seq.get(j))))))
+    st.pc.append(c1)
+    st.pc.append(c2)
     st.heap[lst.n] = HList(seq.insert_at(p, x))
     st.ghost["insort_p"] = p
     return [(st, None, None)]
